@@ -49,7 +49,8 @@
 //! {1,2,3,8,24,255}^2), answer-filter worlds (gen::generate_af: filter class x element x section x
 //! family x response kind, see gen.rs), limit schedule (depth.rs), hostile CNAME fan-out families
 //! (fanout.rs: k CNAME records in one response, k in {2..200}, nested 1..6, any section, TCP after
-//! truncation), stub alias chasing (stub.rs).
+//! truncation), stub alias chasing (stub.rs); opt-in (`C19_NSFAN=1`): hostile NS fan-out (nsfan.rs,
+//! k glueless NS records in one referral - the unchanged tree exceeds `termination-budget` there).
 //!
 //! Don't-cares (not judged): which error a failing resolution returns; whether a resolution
 //! that *could* succeed does succeed (availability is C18's business) - in particular whether an
@@ -67,6 +68,7 @@ mod depth;
 mod fanout;
 mod gen;
 mod net;
+mod nsfan;
 mod oracle;
 mod stub;
 mod world;
@@ -259,7 +261,15 @@ fn judge(w: &World, run: &WorldRun, rep: &mut Reporter, widx: u64) {
     let world_hash = fnv64(world_json.to_string().as_bytes());
     let mut raised: BTreeSet<String> = BTreeSet::new();
     let loop_tags: Vec<&str> = w.tags.iter().map(|s| s.as_str()).filter(|t| gen::LOOP_KINDS.contains(t)).collect();
-    let loop_sig = if loop_tags.is_empty() { "none".to_string() } else { loop_tags.join("+") };
+    let loop_sig = if !loop_tags.is_empty() {
+        loop_tags.join("+")
+    } else if w.fan.is_some() {
+        "fanout".to_string()
+    } else if let Some(t) = w.tags.iter().find(|t| t.starts_with("ns-fanout-")) {
+        t.clone()
+    } else {
+        "none".to_string()
+    };
 
     let viol = |rep: &mut Reporter, raised: &mut BTreeSet<String>, rule: &str, sig: String, top: usize, exp: Value, obs: Value| {
         if !raised.insert(format!("{rule}|{sig}")) {
@@ -629,6 +639,7 @@ fn real_main() {
     }
     depth::musts(&mut rep);
     fanout::musts(&mut rep);
+    nsfan::musts(&mut rep);
     rep.must("stub_lookups", 100);
     rep.must("stub_loop_lookups", 30);
     rep.must("stub_ok", 30);
@@ -665,6 +676,9 @@ fn real_main() {
     depth::run(&ctx, &mut rep);
 
     fanout::run(&ctx, &mut rep);
+
+    // opt-in (C19_NSFAN=1): hostile NS fan-out, see nsfan.rs
+    nsfan::run(&ctx, &mut rep);
 
     stub::run(&ctx, &mut rep);
 
